@@ -48,11 +48,10 @@ USER_CB = {
 OPT_CB = {"on_enable": ("has_enable", "SOnEnable"), "on_disable": ("has_disable", "SOnDisable"), "setup": ("has_setup", "SSetup")}
 ROBOT_INLINE = {"self._on_mode_enable_components", "self._on_mode_disable_components", "self._do_periodics", "self._enabled_periodic"}
 SELECTOR_INLINE = {"self._on_autonomous_enable", "self._on_iteration", "self.disable"}
-IGNORE_CALL_PREFIX = ("watchdog.", "hal.observe", "logger.", "self.logger.")
-IGNORE_CALL = {"refreshData", "observe", "watchdog_check_expired", "self.__nt_put_is_ds_attached",
+IGNORE_CALL_PREFIX = ("watchdog.", "self.watchdog.", "hal.observe", "logger.", "self.logger.")
+IGNORE_CALL = {"wpilib.DriverStation.refreshData", "watchdog_check_expired", "self.__nt_put_is_ds_attached",
                "wpilib.LiveWindow.setEnabled", "timer.start"}
-IGNORE_TARGET = {"watchdog", "ds_attached", "refreshData", "DSControlWord", "cw", "observe", "isTeleopEnabled",
-                 "isAutonomousEnabled", "timer", "auto_mode", "self.active_mode", "watchdog_check_expired", "iter_fn",
+IGNORE_TARGET = {"ds_attached", "cw", "timer", "auto_mode", "self.active_mode", "watchdog_check_expired", "iter_fn",
                  "on_exception"}
 HANDLERS = {"self.onException", "on_exception"}
 ALIASES = {"isTeleopEnabled": "wpilib.DriverStation.isTeleopEnabled",
@@ -62,6 +61,29 @@ ALIASES = {"isTeleopEnabled": "wpilib.DriverStation.isTeleopEnabled",
 
 def txt(node):
     return ast.unparse(node)
+
+
+def pure_chain(n):
+    """a.b.c with a in self / wpilib / hal: a name for something, no call"""
+    while isinstance(n, ast.Attribute):
+        n = n.value
+    return isinstance(n, ast.Name) and n.id in ("self", "wpilib", "hal")
+
+
+def expand(t, env):
+    """replace a leading local alias (x = self.watchdog; x.reset()) by what it names"""
+    al = env.get("alias") or {}
+    for _ in range(4):
+        head, dot, rest = t.partition(".")
+        if head in al:
+            t = al[head] + dot + rest
+        else:
+            m = head.split("(")[0]
+            if m in al and head != m:
+                t = al[m] + head[len(m):] + dot + rest
+            else:
+                break
+    return t
 
 
 def seq_of(terms):
@@ -106,7 +128,7 @@ class Tr:
         key = (cls, name)
         if key not in self.done:
             self.done[key] = None      # cycle guard
-            term = seq_of(self.block(self.body_of(cls, name), dict(env, cls=cls)))
+            term = seq_of(self.block(self.body_of(cls, name), dict(env, cls=cls, alias={})))
             gname = "gen_" + name.lstrip("_")
             self.defs.append((gname, term))
             self.done[key] = gname
@@ -118,6 +140,7 @@ class Tr:
         return (isinstance(h, ast.ExceptHandler) and h.type is None and h.name is None and len(h.body) == 1
                 and isinstance(h.body[0], ast.Expr) and isinstance(h.body[0].value, ast.Call)
                 and txt(h.body[0].value.func) in HANDLERS)
+
 
     # ------------------------------------------------------------------ statements
     def block(self, stmts, env):
@@ -154,7 +177,7 @@ class Tr:
         raise Shape("statement not recognised (line %d): %s" % (getattr(s, "lineno", 0), txt(s)[:80]))
 
     def call(self, c, env):
-        f = txt(c.func)
+        f = expand(txt(c.func), env)
         if f in env.get("optcb", {}):
             field, site = OPT_CB[env["optcb"][f]]
             return ["PInvoke (%s %s)" % (site, env["comp_i"])]
@@ -205,11 +228,14 @@ class Tr:
                 cur[:0] = [(env.get("cond"), txt(e)) for e in v.left.elts]
                 return []
             raise Shape("auto_functions = %s" % txt(v))
+        if isinstance(targets[0], ast.Name) and pure_chain(v) and t not in ("auto_functions",):
+            # a local name for a framework / wpilib / hal object or function: remembered, expanded at its uses
+            env.setdefault("alias", {})[t] = expand(txt(v), env)
+            return []
         if t in IGNORE_TARGET:
-            if t in ALIASES and txt(v) != ALIASES[t]:
-                raise Shape("%s is bound to %s, expected %s" % (t, txt(v), ALIASES[t]))
-            if isinstance(v, ast.Call) and txt(v.func) not in ("DSControlWord", "wpilib.Timer", "wpilib.SmartDashboard.getString",
-                                                             "self.chooser.getSelected"):
+            if isinstance(v, ast.Call) and expand(txt(v.func), env) not in ("wpilib.DSControlWord", "wpilib.Timer",
+                                                                          "wpilib.SmartDashboard.getString",
+                                                                          "self.chooser.getSelected"):
                 raise Shape("assignment calls %s" % txt(v.func))
             return []
         raise Shape("assignment not recognised (line %d): %s" % (s.lineno, txt(s)[:80]))
@@ -282,9 +308,10 @@ class Tr:
             return "negb (%s)" % self.bexpr(n.operand, names)
         if isinstance(n, ast.BoolOp) and isinstance(n.op, ast.And):
             return "(" + " && ".join(self.bexpr(v, names) for v in n.values) + ")"
-        t = txt(n)
+        t = expand(txt(n), names.get("__env", {}))
         table = {"cw.isEnabled()": "en", "cw.isTest()": "te", "cw.isAutonomous()": "au",
-                 "isTeleopEnabled()": "(en && negb au && negb te)", "isAutonomousEnabled()": "(en && au)"}
+                 "wpilib.DriverStation.isTeleopEnabled()": "(en && negb au && negb te)",
+                 "wpilib.DriverStation.isAutonomousEnabled()": "(en && au)"}
         table.update(names)
         if t in table:
             return table[t]
@@ -294,7 +321,7 @@ class Tr:
     def mode_fn(self, cls, name, env):
         """-> (enter terms, break test (Coq bool over en au te), iteration terms, leave terms)"""
         body = self.body_of(cls, name)
-        env = dict(env, cls=cls)
+        env = dict(env, cls=cls, alias={})
         pre, post = [], []
         res = None
         for k, s in enumerate(body):
@@ -310,15 +337,17 @@ class Tr:
                     raise Shape("%s: the with-block is not `while not <done flag>:`" % name)
                 loop = s.body[0].body
                 j = 0
-                if not (j < len(loop) and txt(loop[j]) == "refreshData()"):
+                if not (j < len(loop) and isinstance(loop[j], ast.Expr) and isinstance(loop[j].value, ast.Call)
+                        and expand(txt(loop[j].value.func), env) == "wpilib.DriverStation.refreshData" and not loop[j].value.args):
                     raise Shape("%s: the loop does not start with refreshData()" % name)
                 j += 1
-                if j < len(loop) and txt(loop[j]) == "cw = DSControlWord()":
+                if (j < len(loop) and isinstance(loop[j], ast.Assign) and txt(loop[j].targets[0]) == "cw"
+                        and isinstance(loop[j].value, ast.Call) and expand(txt(loop[j].value.func), env) == "wpilib.DSControlWord"):
                     j += 1
                 brk = loop[j] if j < len(loop) else None
                 if not (isinstance(brk, ast.If) and not brk.orelse and len(brk.body) == 1 and isinstance(brk.body[0], ast.Break)):
                     raise Shape("%s: no `if <test>: break` after refreshData()" % name)
-                test = self.bexpr(brk.test, {})
+                test = self.bexpr(brk.test, {"__env": env})
                 j += 1
                 waits = [i for i in range(j, len(loop)) if txt(loop[i]) == "delay.wait()"]
                 if len(waits) != 1:
